@@ -392,13 +392,17 @@ def confirm(V, name, path, op):
 TABLE_KERNEL = "export.foo push.1 drop end export.bar push.2 drop end"
 TABLE_PROGRAMS = ["begin repeat.80 push.1 drop end end", "begin repeat.18 padw end drop end", "proc.f push.1 drop end begin call.f end",
                   "begin push.1 if.true push.2 drop else push.3 drop end push.1 while.true push.0 end end",
-                  "proc.f push.1 drop end proc.g call.f push.2 drop end begin call.g call.f end"]
+                  "proc.f push.1 drop end proc.g call.f push.2 drop end begin call.g call.f end",
+                  # calls made while the caller's stack is deeper than 16 (non-zero overflow address saved and restored)
+                  "proc.f push.1 drop end begin push.7 push.8 push.9 call.f drop drop drop end",
+                  "proc.f push.1 drop end proc.g push.4 call.f drop end begin push.7 push.8 call.g drop drop end"]
 
 
 def confirm_tables(V, name, path):
     """native: every virtual-table column of real traces (decoder p1..p3, chiplets table and bus) must end at 1"""
     import masmsym
-    progs = [(src, None) for src in TABLE_PROGRAMS] + [("begin syscall.foo syscall.bar end", TABLE_KERNEL), ("proc.f syscall.foo end begin call.f syscall.bar end", TABLE_KERNEL)]
+    progs = [(src, None) for src in TABLE_PROGRAMS] + [("begin syscall.foo syscall.bar end", TABLE_KERNEL), ("proc.f syscall.foo end begin call.f syscall.bar end", TABLE_KERNEL),
+                                                           ("begin push.7 push.8 push.9 syscall.foo drop drop drop end", TABLE_KERNEL)]
     nats = masmsym.native([dict(kind="trace_check", source=src, stack=[], advice=[], aux=True, **({"kernel": k} if k else {})) for src, k in progs], "c12t")
     for (src, k), nat in zip(progs, nats):
         fin = nat.get("aux_final") or []
